@@ -81,6 +81,16 @@ def model_lit(M, hlit='None', projlit='[]'):
 
 
 # ---- sequential kernels substituted for BLAS in the module namespaces, so that the comparison is bit-exact ----
+class SqF(np.float64):
+    """a binary64 scalar whose x**2 is the correctly rounded x*x: Python and numpy scalars compute x**2 with libm's pow,
+    which differs from x*x in about 0.1% of arguments (by one ulp), while numpy arrays compute v**2 as v*v; the model has x*x"""
+
+    def __pow__(self, e):
+        if e == 2:
+            return np.float64(self) * np.float64(self)
+        return np.float64.__pow__(self, e)
+
+
 def seq_dot(a, b):
     a = np.asarray(a, dtype=float)
     b = np.asarray(b, dtype=float)
@@ -88,7 +98,7 @@ def seq_dot(a, b):
         acc = 0.0
         for x, y in zip(a.tolist(), b.tolist()):
             acc = acc + x * y
-        return np.float64(acc)
+        return SqF(acc)
     if a.ndim == 2 and b.ndim == 1:
         return np.array([seq_dot(r, b) for r in a], dtype=float)
     if a.ndim == 2 and b.ndim == 2:
@@ -109,7 +119,23 @@ class NpProxy:
     def __getattr__(self, name):
         if name == 'dot':
             return seq_dot
+        if name == 'linalg':
+            return LinalgProxy()
         return getattr(self._np, name)
+
+
+class LinalgProxy:
+    """numpy.linalg with the 2-norm of a vector computed as sqrt(sequential dot) (numpy computes sqrt(x.dot(x)) through BLAS)"""
+
+    def __getattr__(self, name):
+        if name == 'norm':
+            def norm(x, *a, **k):
+                x = np.asarray(x, dtype=float)
+                if a or k or x.ndim != 1:
+                    return np.linalg.norm(x, *a, **k)
+                return np.sqrt(seq_dot(x, x))
+            return norm
+        return getattr(np.linalg, name)
 
 
 def h_l1(lam):
